@@ -7,7 +7,7 @@
    table (after fix D21; the function as it stood is refuted).
    TableClean.v: within the limit after a cleanup.  Every clause of the property is now a theorem
    (for system-producible routes and configurations whose routing bits are at least the base bits). *)
-From Verif Require Import Prelude SwitchLabel Table TableProofs TableSorted TableBounds TablePrefix TableClean.
+From Verif Require Import Prelude Gen SwitchLabel Table TableProofs TableSorted TableBounds TablePrefix TableClean.
 
 (* 'added' means the route is now present ... *)
 Theorem C11_added_present : forall cfg now t e0 t',
@@ -163,3 +163,13 @@ Theorem C11_reachable_clean_within_limit : forall cfg self ops now, cfg_ok cfg =
     (cnt (in_gp (e_paddr e) (e_pbits e)) t <= lim_of cfg (e_dst e))%nat.
 Proof. exact reachable_clean_within_limit. Qed.
 Print Assumptions C11_reachable_clean_within_limit.
+
+(* ---------- the operations are atomic steps (go/ast obligation on the source under test) ---------- *)
+(* The theorems above range over operation SEQUENCES.  Announcement handlers, link removal and the
+   cleaning worker call the table concurrently; they produce one of these sequences because every
+   mutating operation (AddRoute, RemoveNextHop, RemoveDisconnected, Clean) takes the table's write
+   lock once, defers the unlock at once, does not touch the entries before, and contains no other
+   lock call.  Gen.table_ops_serialised is computed from m/table.go on every run. *)
+Theorem C11_operations_serialised : Gen.table_ops_serialised = true.
+Proof. reflexivity. Qed.
+Print Assumptions C11_operations_serialised.
